@@ -732,6 +732,23 @@ func gridInteract() []group {
 		}
 		add("$ ? ("+cond2+")", doc, nil)
 	}
+	// (11) the filter item is a json.Number whose text is not what its value prints as: the condition sees the text
+	jn := func(ts ...string) []any {
+		out := make([]any, len(ts))
+		for i, t := range ts {
+			out[i] = json.Number(t)
+		}
+		return out
+	}
+	texts := jn("1.50", "1.5", "100.0", "100", "1e2", "1E2", "0.10", "-0", "0", "9007199254740993", "1.0e0", "12345678901234567890", "2.50e1")
+	for _, t := range []string{"$[*] ? (@.string() == \"1.50\")", "$[*] ? (@.string() starts with \"1\")", "$[*] ? (@.string() like_regex \"0$\")", "$[*] ? (@.string() == \"100\")", "$[*] ? (@.string() == $[*].string())",
+		"$[*] ? (@.string() like_regex \"[eE]\")", "$[*] ? (@ == 100 && @.string() != \"100\")", "$[*].string()", "$[*] ? (@.type() == \"number\").string()", "$[*] ? (!(@.string() == \"1.5\"))",
+		"$[*] ? (@.double() == 1.5 && @.string() == \"1.50\")", "$[*] ? (@.string().double() == @)", "$[*] ? (exists(@ ? (@.string() == \"0.10\")))"} {
+		add(t, texts, nil)
+		add(strings.Replace(t, "$[*]", "$.a[*]", 1), map[string]any{"a": texts}, nil)
+	}
+	add("$[*] ? (@.string() == $v.string())", texts, map[string]any{"v": json.Number("1.50")})
+	add("$v ? (@.string() == \"1.50\")", float64(0), map[string]any{"v": json.Number("1.50")})
 	return gs
 }
 
